@@ -68,6 +68,7 @@ var c17Vals = map[string]any{
 	"bt": true, "bf": false,
 	"sabc": "abc", "ssp": "a b", "s110": "1.10", "s007": "007", "splus": "+5", "s1e3": "1e3", "sTRUE": "TRUE", "sfalse": "false",
 	"sq1": "'x'", "sq2": "\"x\"", "sbr": "[a,b]", "smap": "map[a:b]", "sjson": "{\"a\":1}", "sempty": "", "spad": " x ", "scomma": "a,b", "seq": "a=b", "scolon": "a:b", "sph": "x}y",
+	"lbig": []any{(1 << 53) + 1, 1}, "mbig": map[string]any{"a": "x", "n": (1 << 53) + 1},
 	"ls": []any{"a", "b"}, "li": []any{1, 2}, "lmix": []any{"1.10", "x"},
 	"m": map[string]any{"a": "x", "n": 3}, "ms": map[string]any{"a": "1.10", "n": 7}, "mss": map[string]any{"a": "x", "b": "1.10"},
 	// keys containing the path separator, nested maps, an empty nested map
@@ -107,7 +108,7 @@ func c17Compatible(vk, tn string) bool {
 	case bool:
 		return tn == "bool" || tn == "any"
 	case []any:
-		if vk == "li" {
+		if vk == "li" || vk == "lbig" {
 			return tn == "ints" || tn == "any"
 		}
 		return tn == "strs" || tn == "any"
@@ -239,6 +240,11 @@ func c17Run(c *core.Ctx) {
 					continue
 				}
 				for _, p := range []string{"prefix", "value", "prop", "value-default", "prop-default", "prefix-preset", "value-preset"} {
+					// integers above 2^53 inside lists / maps / structs: by prefix only (on the other
+					// paths every value makes a JSON round trip - the listed residue of D7)
+					if (k == "lbig" || k == "mbig") && !strings.HasPrefix(p, "prefix") {
+						continue
+					}
 					if strings.HasSuffix(p, "-default") && c17Default(tn) == "" {
 						continue
 					}
